@@ -33,6 +33,11 @@ CHECKS = {
   note="Trusted: go/ssa; os.WriteFile durability; the attribute/field table in engines/c08.go. Two durability findings in the recovery routine are known findings (repair blocked by an existing test).",
   tech="static analysis: must-precede / first-on-all-paths CFG rules, path-sensitive error-discipline dataflow, value-shape and field-provenance tables on go/ssa",
   ref="DESIGN.md §2 C08"),
+ "C01": dict(
+  text="Structural necessary conditions of address uniqueness checked for every pool implementation the property names (bitmap, epoch/lease, DHCPv4, DHCPv6 address and prefix, PPPoE, peer-local, in-memory store): lockset (every access to pool state holds the pool's mutex; helpers through all their callers), check-then-act atomicity (each owner-map insert is dominated by a lookup miss made under the same uninterrupted lock hold), forward/reverse maps updated together on every path, and a take-from-free witness for each bind (bit test, generation-free test with unconditional sweep of expired owners, or pop from the free list). The hash-based central allocator has no witness (known finding). Not decided: uniqueness over histories when the witness itself is wrong (2-bit epoch wrap), index/address arithmetic, hash collisions beyond 'there is no witness'.",
+  note="Trusted: go/ssa, the must-held lock analysis (lock identity by access path), the per-type tables in engines/c01.go. UnmarshalJSON is exempt from the lockset (restores an unshared object).",
+  tech="static analysis: lockset (must-held locks, interprocedural helper rule), dominance-based check-then-act and witness rules, must-pass-through pairing on go/ssa",
+  ref="DESIGN.md §2 C01, §1.3 E6"),
 }
 NA = {}
 def main():
